@@ -92,6 +92,13 @@ func Start(prop, level string) *Run {
 		knownSeen:  map[string]int{},
 		known:      map[string]Finding{},
 	}
+	// summary of the race-detector pass that ./check ran before this one (thorough tier)
+	if rp := os.Getenv("VERIF_RACE_PASS"); rp != "" {
+		var v any
+		if json.Unmarshal([]byte(rp), &v) == nil {
+			r.extra["race_detector_pass"] = v
+		}
+	}
 	// known findings (committed file, never written at run time)
 	if b, err := os.ReadFile(filepath.Join(Root(), "known_findings.json")); err == nil {
 		var fs []Finding
